@@ -25,7 +25,7 @@ loader.exec_module(chk)
 SCRATCH = "/tmp/mst-model-mutants"
 STREAMS = ["tsmall", "tmid", "tdeep", "trand", "tclone", "vsmall", "dsmall", "drand", "dwide", "lsmall", "lrand",
            "ssmall", "srand", "tcfg", "twide", "tkeylen"]
-SHARDS = [0, 5]          # two of the sixteen shards of every quick stream
+SHARDS = [int(x) for x in os.environ.get("MUTANT_SHARDS", "0,5").split(",")]          # which of the sixteen shards of every quick stream
 
 T = "MstVerif/Model/Tree.lean"
 DF = "MstVerif/Model/Diff.lean"
@@ -71,8 +71,41 @@ MUTANTS = [
     ("punch-right-piece-nonstrict", DF, "(if good.2 < bad.2 then [(good.2, bad.2)] else [])", "(if good.2 ≤ bad.2 then [(good.2, bad.2)] else [])"),
     ("diff-local-superset-shortcut-removed", DF, "if localIsSuperset then .ok (peer1, loc, b)", "if false then .ok (peer1, loc, b)"),
     ("reduce-no-final-merge", DF, "  match mergeOverlapping bad' with\n  | .error e => .error e\n  | .ok m =>\n    match checkWindowsReduce m with", "  match (Except.ok bad' : Except String (List (DR K))) with\n  | .error e => .error e\n  | .ok m =>\n    match checkWindowsReduce m with"),
-    # --- level
+    # --- traversal / visitor early stop / iterator / page ranges
+    ("visitor-postNode-false-ignored", TR, "          match vis s (.postNode k v) with\n          | (s, false) => (s, false)\n          | (s, true) => runNd vis tl s", "          match vis s (.postNode k v) with\n          | (s, _) => runNd vis tl s"),
+    ("visitor-postPage-false-ignored", TR, "        match vis s (.postPage L) with\n        | (s, false) => (s, false)\n        | (s, true) => runPg vis true h s", "        match vis s (.postPage L) with\n        | (s, _) => runPg vis true h s"),
+    ("visitor-high-flag-false", TR, "        | (s, true) => runPg vis true h s", "        | (s, true) => runPg vis false h s"),
+    ("trace-high-flag-false", TR, ".visitPage L c n.length high :: (traceNd n ++ (.postPage L :: tracePg true h))", ".visitPage L c n.length high :: (traceNd n ++ (.postPage L :: tracePg false h))"),
+    ("iter-skips-high-page", TR, "        | .some hv => iterNext fuel (hv :: stack)\n", "        | .some _ => iterNext fuel stack\n"),
+    ("maxSubtreeKey-ignores-high-page", TR, "    match h with\n    | .some .. => maxSubtreeKey h\n    | .none =>", "    match (Pg.none : Pg K V D) with\n    | .some .. => maxSubtreeKey h\n    | .none =>"),
+    ("minSubtreeKey-no-descent", TR, "      | .some .. => minSubtreeKey lt", "      | .some .. => .ok k"),
+    ("ranges-high-before-children", TR, "        | .ok rh => .ok (r :: (rn ++ rh))", "        | .ok rh => .ok (r :: (rh ++ rn))"),
+    ("serialise-available-without-rootHash", TR, "  | .none => .ok .none\n  | .some _ =>\n    if t.root.nodesNil", "  | .none => (match rangesPg t.root with | .error e => .error e | .ok l => .ok (.some l))\n  | .some _ =>\n    if t.root.nodesNil"),
+    # --- sync model
+    ("join-keeps-old-value", SY, "| .joinMax, some o => Max.max o new", "| .joinMax, some o => o"),
+    ("peerWins-keeps-old-value", SY, "| .peerWins, some _ => new", "| .peerWins, some o => o"),
+    ("fetch-excludes-range-end", SY, "rs.any fun r => decide (r.1 ≤ k) && decide (k ≤ r.2)", "rs.any fun r => decide (r.1 ≤ k) && decide (k < r.2)"),
+    ("pull-does-not-upsert-tree", SY, "  | .ok t => .ok { store := storeInsert kv.1 nv r.store, tree := t }", "  | .ok _ => .ok { store := storeInsert kv.1 nv r.store, tree := r.tree }"),
+    # --- SipHash / std::hash framing / constructors
+    ("siphash-rotation-13-to-14", SH, "let v1 := rotl s.v1 13", "let v1 := rotl s.v1 14"),
+    ("siphash-finalisation-0xdd-to-0xde", SH, "v1 := s.v1 ^^^ 0xdd", "v1 := s.v1 ^^^ 0xde"),
+    ("siphash-length-byte-missing", SH, "((bs.length.toUInt64 &&& 0xff) <<< 56) ||| leWord tail", "leWord tail"),
+    ("builder-withHasher-resets-base", AP, "def TreeBuilder.withHasher (b : TreeBuilder) (h : HasherM) : TreeBuilder := { hasher := h, levelBase := b.levelBase }", "def TreeBuilder.withHasher (b : TreeBuilder) (h : HasherM) : TreeBuilder := { hasher := h, levelBase := defaultLevelBase }"),
+    ("newWithHasher-default-base-8", AP, "def MST.newWithHasher (h : HasherM) : MST K D := { hasher := h, levelBase := defaultLevelBase, tree := Tree.empty }", "def MST.newWithHasher (h : HasherM) : MST K D := { hasher := h, levelBase := 8, tree := Tree.empty }"),
+    ("sipNew-swaps-key-words", AP, ".sip (Sip.leWord (seed.take 8)) (Sip.leWord ((seed.drop 8).take 8))", ".sip (Sip.leWord ((seed.drop 8).take 8)) (Sip.leWord (seed.take 8))"),
 ]
+
+# Mutants that MUST survive: behaviour-preserving on every reachable input (analysis recorded here,
+# DESIGN.md section 12.9). A survivor that is not listed is a gap in the streams.
+EXPECTED_SURVIVORS = {
+    "split-allLt-always-invalidates": "the model merely invalidates MORE than the code: every digest later exposed is recomputed and equal; the comparer's documented tolerance (cache presence is policy, cache VALUE must be the true digest) accepts it by design",
+    "secondSplit-invalidates": "same: over-invalidation only (and the second split is a proved no-op: splitPg_all_lt)",
+    "splitNd-le-becomes-lt": "differs only when the split key EQUALS a key of the page being split, i.e. when one key occurs on two levels - excluded by a deterministic hasher (the level is a function of the key); upsert of an existing key never splits",
+    "intermediate-drops-gte-when-rest-empty": "`gte` is the remainder of the second split, proved to be always none (dead code, DESIGN 12.4b)",
+    "gen-descends-into-cached-pages": "recomputing a cached page gives the cached digest again because caches are sound (CacheOK) on every reachable state",
+    "overlaps-strict": "differs only for a single-point inconsistent range [x,x] meeting a consistent range starting at x; consistent ranges only arise under an inconsistent parent whose whole span is inconsistent and absorbs [x,x] in the merge; with root [x,x] every local page inside it is also a superset and is consumed by the shrink loop, so no consistent mark can follow",
+    "diff-start-from-root-always": "ranges recorded at diff.rs:249 while walking the children of a page lie inside that page's span, which was recorded inconsistent as a whole before the descent; merge_overlapping absorbs them whatever their start",
+}
 
 
 def sh(cmd, **kw):
@@ -164,12 +197,24 @@ def main():
                                 "first": {"stream": dis[0][0], "line": dis[0][1], "op": dis[0][2]}})
                 print(f"ok {name}: killed by {','.join(killers)}  ({time.time()-t0:.0f}s)")
             else:
-                results.append({"mutant": name, "file": f, "status": "SURVIVED the correspondence streams"})
-                print(f"!! {name}: SURVIVED")
+                why = EXPECTED_SURVIVORS.get(name)
+                if not why:
+                    # not executed by the driver? then the definition is tied through the THEOREMS that
+                    # relate it to executed definitions: the property modules must stop compiling
+                    pr = sh(["lake", "build"] + [f"MstVerif.Props.C{i:02d}" for i in range(1, 19)], cwd=lean)
+                    if pr.returncode != 0:
+                        bad = sorted({w for l in pr.stdout.splitlines() if l.startswith("✖") for w in l.split() if w.startswith("MstVerif.")})[:4]
+                        results.append({"mutant": name, "file": f, "status": "killed", "streams": [], "by_proofs": bad or True})
+                        print(f"ok {name}: survives the streams (definition not executed by the driver), killed by the PROOFS {bad}")
+                        open(path, "w").write(src)
+                        continue
+                results.append({"mutant": name, "file": f, "status": "survived (equivalent)" if why else "SURVIVED the correspondence streams", "analysis": why or "NOT ANALYSED - a gap in the streams"})
+                print(f"{'==' if why else '!!'} {name}: survived{' (expected: equivalent)' if why else ' - UNEXPECTED'}")
         open(path, "w").write(src)
     json.dump({"streams": STREAMS, "shards": SHARDS, "results": results}, open(os.path.join(ROOT, "tools/model_mutants.result.json"), "w"), indent=1)
     n_k = sum(1 for r in results if r["status"] == "killed")
-    print(f"{n_k} killed / {len(results)} mutants")
+    n_e = sum(1 for r in results if r["status"].startswith("survived"))
+    print(f"{n_k} killed, {n_e} equivalent (analysed), {len(results) - n_k - n_e} other / {len(results)} mutants")
     if "--keep" not in sys.argv:
         shutil.rmtree(SCRATCH)
 
